@@ -31,7 +31,16 @@ def plan(tier, seed):
         nchunk = max(1, npix // 4096)
         hpx += [{'nside': ns, 'part': [k, nchunk]} for k in range(nchunk)]
     cov = [{'cov': 'all3', 'first': f} for f in range(12)] + [{'cov': 'big', 'nside': n} for n in (1, 2, 4)]
-    return [
+    # very fine HEALPix maps: N = 12 nside^2 beyond 2^31 (64-bit mode only: the index must be an int64)
+    huge = [{'hugenside': ns} for ns in (2 ** 13, 2 ** 14, 2 ** 15)]
+    late = [
+        # 64-bit mode switched on after furax was imported (see mc.pool.worker_init): same cases, same oracles
+        {'name': 'pixel2index_late', 'target': TARGET, 'x64': 'late', 'cases': p2i[1::3] + [{'big': True}], 'chunk': 4},
+        {'name': 'healpix_late', 'target': TARGET, 'x64': 'late', 'cases': hpx[1:: (1 if tier == 'thorough' else 3)] + huge, 'chunk': 1},
+        {'name': 'coverage_late', 'target': TARGET, 'x64': 'late', 'cases': cov[1::4], 'chunk': 1},
+    ]
+    return late + [
+        {'name': 'healpix_huge_x64', 'target': TARGET, 'x64': True, 'cases': huge, 'chunk': 1},
         {'name': 'pixel2index', 'target': TARGET, 'x64': False, 'cases': p2i, 'chunk': 4},
         {'name': 'pixel2index_x64', 'target': TARGET, 'x64': True, 'cases': p2i[::3] + [{'big': True}], 'chunk': 4},
         {'name': 'healpix', 'target': TARGET, 'x64': False, 'cases': hpx, 'chunk': 1},
@@ -125,6 +134,25 @@ def run(phase, cases, ctx):
                         break
                 for pr in probs:
                     violations.append({'kind': 'pixel2index', 'case': case, 'detail': pr})
+                nontrivial.add(json.dumps(case))
+                continue
+            if 'hugenside' in case:
+                import healpy as hp
+
+                ns = case['hugenside']
+                npix = 12 * ns * ns
+                marks = [0, 4 * ns, npix // 3, npix // 2, 2 ** 31, 2 ** 32, 2 * npix // 3, npix - 4 * ns, npix - 9]
+                pix = np.unique(np.concatenate([np.arange(m - 8, m + 9) for m in marks]))
+                pix = pix[(pix >= 0) & (pix < npix)]
+                th, ph = hp.pix2ang(ns, pix)
+                land = HealpixLandscape(ns, 'I', D)
+                got = np.asarray(land.world2index(jnp.asarray(th, D), jnp.asarray(ph, D)))
+                counters['directions'] += len(pix)
+                ok_ref = hp.ang2pix(ns, th, ph) == pix
+                if got.dtype != (np.int64 if npix > 2 ** 31 - 1 else got.dtype) or not np.array_equal(got[ok_ref], pix[ok_ref]):
+                    bad = np.nonzero((got != pix) & ok_ref)[0][:4]
+                    violations.append({'kind': 'healpix-world2index-huge', 'case': case,
+                                       'detail': f'nside {ns} ({npix} pixels): index dtype {got.dtype}; pixels {pix[bad].tolist()} map to {got[bad].tolist()}'})
                 nontrivial.add(json.dumps(case))
                 continue
             if 'nside' in case and 'part' in case:
